@@ -10,7 +10,7 @@ HERE = os.path.dirname(os.path.dirname(os.path.abspath(__file__)))
 def scratch_copy():
     base = '/dev/shm' if os.path.isdir('/dev/shm') else tempfile.gettempdir()
     d = tempfile.mkdtemp(prefix='verif-mut-', dir=base)
-    subprocess.run('rsync -a --exclude __pycache__ /repo/lbry %s/' % d, shell=True, check=True)
+    subprocess.run('rsync -a --exclude __pycache__ --exclude .git --exclude docs /repo/ %s/' % d, shell=True, check=True)
     return d
 
 
@@ -21,6 +21,10 @@ def run_one(diff, tier='quick', seed='0'):
         p = subprocess.run(['patch', '-p1', '-s', '-d', d, '-i', diff], capture_output=True, text=True)
         if p.returncode != 0:
             return prop, 'PATCH-FAILED', p.stdout + p.stderr, 0
+        if '--baseline' in sys.argv:
+            b = subprocess.run([os.path.join(HERE, 'bin', 'baseline')], env=dict(os.environ, VERIF_REPO=d), capture_output=True, text=True)
+            if b.returncode != 0:
+                return prop, 'BREAKS-BASELINE', b.stdout[-400:], 0
         env = dict(os.environ, VERIF_REPO=d, VERIF_EVIDENCE_DIR=os.path.join(d, '_evidence'), VERIF_SEED=seed)
         os.makedirs(os.path.join(d, '_evidence', 'replay'))
         t = time.time()
